@@ -4,6 +4,7 @@ import json
 import os
 import random
 import re
+import signal
 import sys
 import traceback
 from collections import Counter
@@ -19,6 +20,7 @@ from .recipes import Builder, canon
 SIM_DIR = os.path.dirname(os.path.abspath(__file__))
 MAX_PRODUCTS = 40_000
 MAX_STEPS = 200
+NONFINITE_ALARM_S = 20
 
 FAULT_KINDS = ("raise", "alloc_fail", "nonfinite", "pbar_fail", "clock")
 
@@ -223,6 +225,11 @@ class Ctx:
         act = self.yield_point(cur)
         Y = inner @ X
         if act[0] == "nonfinite":
+            if "nonfinite" not in cur.fault_fired:
+                # LAPACK drivers (gelsd, ...) can spin forever on NaN input: bound the step by SIGALRM
+                # (default disposition: the process dies and the parent records env_hang, not a verdict)
+                world.crumb({"nonfinite": cur.sid})
+                signal.alarm(NONFINITE_ALARM_S)
             cur.fault_fired.add("nonfinite")
             self.fired["nonfinite"] += 1
             Y = np.array(Y, copy=True)
@@ -806,6 +813,9 @@ class Ctx:
             else:
                 outcome = ["exc", type(e).__name__]
         finally:
+            if "nonfinite" in cur.fault_fired:
+                signal.alarm(0)
+                world.crumb({"nonfinite": None, "done": sid})
             self.cur = None
             FakeBar.fail_hook = None
             CLOCK.hook = None
